@@ -33,6 +33,11 @@ CLAIMED = {
                      "/ NoSolutionFound / anything else) is proved consistent with the NUMBER of satisfying assignments as a z3 term "
                      "(=1, >=2, =0) for every data valuation - the solver, not a dataset, picks the region; re-evaluation and "
                      "agreement with an(desc) are checked in the same path."),
+    "C10": dict(design_ref="DESIGN.md 7/C10",
+                text="Bounded-exhaustive symbolic execution: rows of an(entity/set_of(free, for_all(u, c) [and d])) equal "
+                     "{f | AND over every universal value of Z(c)(f,u) [and Z(d)(f)]} for every enumerated c (mentioning u, the "
+                     "free variables, both; comparators, and/or/not), |U| = 1..3, one or two free variables, universal given as "
+                     "a variable or an attribute expression, caching on and off, and EVERY data valuation."),
 }
 
 NOT_APPLICABLE = {pid: PENDING for pid in ["C%02d" % i for i in range(1, 21)] if pid not in CLAIMED}
